@@ -52,6 +52,35 @@ func c09Jobs(tier string) []Job {
 					Name: fmt.Sprintf("build_smpp%d_list%o_origin%d_class%d", smpp, l, origin, class), Weight: 10 + class*5, Timeout: 10 * time.Minute, MaxPaths: 5000})
 			}
 		}
+		// the original coding against every single candidate (two in thorough), for the content no
+		// listed coding can take (class 2: the UCS-2 fallback must win whatever the origin is) and
+		// for the short one (class 0)
+		seen := map[string]bool{}
+		for _, j := range js {
+			seen[j.Name] = true
+		}
+		for _, class := range []int{2, 0} {
+			for _, o := range digits {
+				var ls []int
+				for _, a := range digits {
+					ls = append(ls, a)
+					if tier == "thorough" {
+						for _, b := range digits {
+							ls = append(ls, a+8*b)
+						}
+					}
+				}
+				for _, l := range ls {
+					name := fmt.Sprintf("build_smpp%d_list%o_origin%d_class%d", smpp, l, o, class)
+					if seen[name] {
+						continue
+					}
+					seen[name] = true
+					js = append(js, Job{Dir: "", Harness: "VH_C09_build", Params: map[string]int{"smpp": smpp, "list": l, "origin": o, "class": class},
+						Name: name, Weight: 10 + class*5, Timeout: 10 * time.Minute, MaxPaths: 5000})
+				}
+			}
+		}
 	}
 	return js
 }
@@ -64,7 +93,7 @@ func init() {
 		Stubs:     []string{"errgroup.Group.Go/Wait: closures are recorded and run at Wait in every order (n-way nondeterministic choice)", "map range: every iteration order explored", "logger: no-op"},
 		Bounds: map[string]string{
 			"comparator": "three encoders with symbolic part counts 0..300 and every valid coding triple: irreflexive, asymmetric, transitive, total on distinct codings, equal to (parts, documented priority)",
-			"selection":  "candidate lists of 1..3 codings (duplicates allowed) from the protocol's valid numbers plus one invalid number, GBK excluded; quick: 24 random lists per protocol x 4 content classes, thorough: all lists; original coding none or random; map order and goroutine completion order exhaustive per request",
+			"selection":  "candidate lists of 1..3 codings (duplicates allowed) from the protocol's valid numbers plus one invalid number, GBK excluded; quick: 24 random lists per protocol x 4 content classes, thorough: all lists; original coding none or random, plus every original coding (valid, UCS-2, invalid) against every single candidate (thorough: every pair) for the class-0 and class-2 contents; map order and goroutine completion order exhaustive per request",
 			"contents":   "class 0: 'a'+symbolic lower-case letter; class 1/3: 150/170 concrete ASCII letters (part counts differ between codings); class 2: 'a'+U+4E2D",
 		},
 		Outside: []string{"GBK candidates (GB18030 tables not encoded)", "candidates whose type does not belong to the selected protocol (outside the contract)", "real goroutine interleavings inside errgroup/sync (reduced to completion orders; see C13)"},
